@@ -36,6 +36,38 @@ def run_line(main, mods=None, backends=("vm", "tree"), ast=True, limits=None, en
     return " ".join(parts) + ")"
 
 
+def source_record(src):
+    """A source of run_all (main text, (main, mods) or (main, mods, singletons)) as the fields of a
+    replayable violation record: main, and mods / singletons when present."""
+    if not isinstance(src, tuple):
+        return {"main": src}
+    rec = {"main": src[0]}
+    if len(src) > 1 and src[1]:
+        rec["mods"] = dict(src[1])
+    if len(src) > 2 and src[2] is not None:
+        rec["singletons"] = dict(src[2])
+    return rec
+
+
+def source_of_record(rec):
+    """Inverse of source_record (a recorded violation back into a source of run_all)."""
+    if "mods" in rec or "singletons" in rec:
+        return (rec["main"], rec.get("mods"), rec.get("singletons"))
+    return rec["main"]
+
+
+def source_text(src):
+    """One printable string naming the case (case key, messages)."""
+    if not isinstance(src, tuple):
+        return src
+    t = src[0]
+    for name, text in sorted((src[1] or {}).items()):
+        t += f"\n// module {name}:\n{text}"
+    if len(src) > 2 and src[2] is not None:
+        t += "\n// host provides: " + " ".join(f"{k}={v}" for k, v in sorted(src[2].items()))
+    return t
+
+
 def split_fields(line):
     out = {}
     for p in line.strip().split(" | "):
